@@ -288,7 +288,7 @@ theorem mergeSort_pairs_perm {P Q : List (Val × Key)} (hp : Q.Perm P) (hh : Key
 theorem widen_eq_ok' {α} {t xs fs extra} {r : Res α} {a : α} (h : widen t xs fs extra r = .ok a) : r = .ok a := by
   cases r with
   | ok b => exact h
-  | err cs => simp only [widen] at h; split at h <;> cases h
+  | err cs => simp only [widen] at h; split at h <;> (try split at h) <;> cases h
   | panic w => cases h
   | nondet => cases h
   | unmodelled w => cases h
